@@ -220,7 +220,7 @@ KINDS = {
     "T": ("T", "rtlib.MkStr(%d)"), "S": ("S", "rtlib.MkInt(%d)"),
 }
 PNAMES = ["a", "b", "ctx", "id", "url", "s", "n", "err", "v", "key", "val", "Http", "x1", "sOut", "sync", "in"]
-MNAMES = ["Get", "Set", "Do", "Run", "Close", "Put", "List", "Find"]
+MNAMES = ["Get", "Set", "Do", "Run", "Close", "Put", "List", "Find", "Id", "Url", "refresh", "Api", "get", "ID"]
 
 
 def gen_iface(rnd, idx):
@@ -571,20 +571,27 @@ def _run(cdir, seed, tier, root, log):
     main = ["package main", "", "import (", '\t"fmt"', '\t"os"', '\t"strings"', '\t"time"']
     for c in good:
         main.append('\t%s "%s/%s"' % (c["pkg"], MOD, c["pkg"]))
-    main += [")", "", "func main() {", "\tmode := os.Args[1]", "\ttype ent struct { name string; run func() ([]string, bool); stress func(int, int, bool) string; resets bool }", "\tall := []ent{"]
+    main += [")", "", "func main() {", "\tmode := os.Args[1]", "\ttype ent struct { name string; run func() ([]string, bool); stress func(int, int, bool) string; resets bool }", "\thung := 0", "\tall := []ent{"]
     for c in good:
         main.append('\t\t{"%s", %s.Run, %s.Stress, %s},' % (c["pkg"], c["pkg"], c["pkg"], "true" if c["flags"]["resets"] else "false"))
     main += ["\t}", "\tfor _, e := range all {",
              "\t\tif mode == \"seq\" {",
-             "\t\t\tout, stable := e.run()",
-             "\t\t\tfmt.Printf(\"%s\\t%s\\t%v\\n\", e.name, strings.Join(out, \";\"), stable)",
+             "\t\t\ttype res struct { out []string; stable bool }",
+             "\t\t\trc := make(chan res, 1)",
+             "\t\t\tgo func() { o, s := e.run(); rc <- res{o, s} }()",
+             "\t\t\tselect {",
+             "\t\t\tcase r := <-rc: fmt.Printf(\"%s\\t%s\\t%v\\n\", e.name, strings.Join(r.out, \";\"), r.stable)",
+             "\t\t\tcase <-time.After(10 * time.Second): fmt.Printf(\"%s\\tDEADLOCK\\tfalse\\n\", e.name); hung++",
+             "\t\t\t}",
+             "\t\t\tif hung >= 3 { return }",
              "\t\t} else {",
+             "\t\t\tif hung >= 2 { return }",
              "\t\t\tch := make(chan string, 1)",
              "\t\t\tgo func() { ch <- e.stress(8, 150, false) }()",
-             "\t\t\tselect { case s := <-ch: fmt.Printf(\"%s\\t%s\\n\", e.name, s); case <-time.After(20 * time.Second): fmt.Printf(\"%s\\tDEADLOCK: stress did not finish in 20s\\n\", e.name) }",
+             "\t\t\tselect { case s := <-ch: fmt.Printf(\"%s\\t%s\\n\", e.name, s); case <-time.After(20 * time.Second): fmt.Printf(\"%s\\tDEADLOCK: stress did not finish in 20s\\n\", e.name); hung++; continue }",
              "\t\t\tif e.resets {",
              "\t\t\t\tgo func() { ch <- e.stress(6, 100, true) }()",
-             "\t\t\t\tselect { case s := <-ch: if s != \"\" { fmt.Printf(\"%s\\t%s\\n\", e.name, s) }; case <-time.After(20 * time.Second): fmt.Printf(\"%s\\tDEADLOCK: stress with resets did not finish in 20s\\n\", e.name) }",
+             "\t\t\t\tselect { case s := <-ch: if s != \"\" { fmt.Printf(\"%s\\t%s\\n\", e.name, s) }; case <-time.After(20 * time.Second): fmt.Printf(\"%s\\tDEADLOCK: stress with resets did not finish in 20s\\n\", e.name); hung++ }",
              "\t\t\t}",
              "\t\t}", "\t}", "}"]
     os.makedirs(os.path.join(root, "cmd"))
@@ -622,6 +629,11 @@ def _run(cdir, seed, tier, root, log):
                                             "what": "compiled mock produced no trace: " + p.stderr[-400:]})
             continue
         nops += len(c["script"])
+        if r[0] == "DEADLOCK":
+            result["violations"].append({"id": c["pkg"], "props": ["C06"], "files": files, "script": c["script"], "funcs": c["funcs"],
+                                         "flags": c["flags"], "model_trace": (m.get("rt") or "").split(";"),
+                                         "what": "sequential script deadlocks inside generated code (the model predicts: %s)" % (m.get("rt") or "")[:200]})
+            continue
         if m.get("rt") != r[0]:
             ml, rl = (m.get("rt") or "").split(";"), r[0].split(";")
             k = next((i for i in range(min(len(ml), len(rl))) if ml[i] != rl[i]), min(len(ml), len(rl)))
